@@ -776,6 +776,10 @@ class Job:
                 except Exception:
                     # Any exception means this method cannot exit early.
 
+                    # A job opened by id whose state point cannot be read has
+                    # nothing to initialize with: fail before creating anything.
+                    self.statepoint
+
                     # Create the workspace directory if it does not exist.
                     try:
                         _mkdir_p(self.path)
